@@ -140,7 +140,7 @@ NSpecials == Len(Specials)
 VARIABLES phase, a, r
 vars == <<phase, a, r>>
 \* a in 1..NSeeds: a seed; a in NSeeds+1 .. NSeeds+NSpecials: a special
-Kept(i) == i > NSeeds \/ Stride = 1 \/ i <= 6 \/ (i + Seed) % Stride = 0 \/ Seeds[i][1] \in {"hashmod", "2^127"}
+Kept(i) == i > NSeeds \/ Stride = 1 \/ i <= 6 \/ (i + Seed) % Stride = 0 \/ Seeds[i][1] \in {"hashmod", "2^127", "rat", "half"}
 Init == phase = "pick" /\ a \in {i \in 1..(NSeeds + NSpecials) : Kept(i)} /\ r = 0
 Pick == /\ phase = "pick" /\ phase' = "done" /\ UNCHANGED a
         /\ r' \in (IF a <= NSeeds THEN 1..NRend ELSE {1})
